@@ -5,6 +5,7 @@ from fractions import Fraction
 from ..engine import Prop, Judgement
 from ..numcmp import close
 from .. import brokerlib as bl
+from .. import sesslib as sl
 
 ASSETS = ['AAA', 'BBB', 'CCC', 'DDD', 'EEE']
 MON = bl.MON
@@ -41,15 +42,25 @@ def gen_opt_case(rng):
 class C19(Prop):
     pid = 'C19'
     worker = 'pcmworker'
+    cross_limit = 60
     rule = ('DynamicUniverse / StaticUniverse queried one second before, exactly at, and after each entry time, years away, and '
             'with absent entry dates; Fixed and EqualWeight optimisers on random non-empty dictionaries and scales; '
             'non-trivial = non-empty answer; distinct = the case tuple')
 
     def gen(self, rng, tier):
         n = 800 if tier == 'quick' else 10000
-        return [gen_universe_case(rng) if rng.random() < 0.6 else gen_opt_case(rng) for _ in range(n)]
+        out = [gen_universe_case(rng) if rng.random() < 0.6 else gen_opt_case(rng) for _ in range(n)]
+        # whole sessions: dynamic universe + the universe-driven alpha model
+        for _ in range(60 if tier == 'quick' else 800):
+            c = sl.gen_session(rng, tier, alpha_kinds=('single',), allow_dynamic=True, all_quoted=True)
+            c['_worker'] = 'sessworker'
+            c['op'] = 'session'
+            out.append(c)
+        return out
 
     def model_case(self, c):
+        if c['op'] == 'session':
+            return sl.session_model_case(c)
         if c['op'] == 'universe':
             u = c['universe']
             if u[0] == 'static':
@@ -59,7 +70,45 @@ class C19(Prop):
             return ('universe', [uv, [int(t) for t in c['times']]])
         return ('optimiser', [c['kind'], Fraction(c['scale']), [[a, Fraction(x)] for a, x in c['weights']]])
 
+    def judge_session(self, c, o, mod):
+        j = Judgement()
+        j.key = hash(repr(c['cfg']))
+        sl.compare_session(c, o, mod, j)
+        if o['init'][0] != 'ok':
+            return j
+        cfg = c['cfg']
+        u = cfg['universe']
+        entry = dict((a, None) for a in c['assets'])
+        if u[0] == 'static':
+            entry = dict((a, cfg['start'] - 1) for a in u[1])
+        else:
+            entry.update(dict((a, e) for a, e in u[1]))
+        sig = cfg['alpha'][1]
+        for t, row in o['allocs']:
+            d = dict(row)
+            for a, e in entry.items():
+                member = e is not None and e <= t
+                if a in d and d[a] != 0 and not member:
+                    j.failures.append('asset %s has target weight %s at %d but enters the universe at %s' % (a, d[a], t, e))
+                if member and d.get(a) != sig:
+                    j.failures.append('asset %s is a universe member at %d (entry %s) but its target weight is %s, not the signal %s' % (a, t, e, d.get(a), sig))
+        for f in o['fills']:
+            e = entry.get(f[1])
+            if e is None or f[0] < e:
+                j.failures.append('fill of %s at %d precedes its universe entry %s' % (f[1], f[0], e))
+        for h in o['history']:
+            if h[1] == 'asset_transaction':
+                a = [x for x in entry if x.upper() == h[3]]
+                if a and (entry[a[0]] is None or h[0] < entry[a[0]]):
+                    j.failures.append('history shows a transaction in %s at %d before its universe entry %s' % (a[0], h[0], entry[a[0]]))
+        if o['fills']:
+            j.nontrivial = True
+        del j.failures[5:]
+        return j
+
     def judge(self, c, impl, mod):
+        if c['op'] == 'session':
+            return self.judge_session(c, impl, mod)
         j = Judgement()
         j.key = repr(c)
         if c['op'] == 'universe':
